@@ -25,6 +25,41 @@ def is_lib_error(e):
     return isinstance(e, tuple(getattr(ex, n) for n in LIB_ERRORS))
 
 
+def crc24q_ref(data, poly=0x1864CFB):
+    """CRC-24Q by schoolbook polynomial long division of data(x)*x^24 (MSB first, zero init, no final xor)"""
+    r = 0
+    for byte in data:
+        for i in range(7, -1, -1):
+            r = (r << 1) | ((byte >> i) & 1)
+            if r >> 24:
+                r ^= poly
+    for _ in range(24):
+        r <<= 1
+        if r >> 24:
+            r ^= poly
+    return r
+
+
+def _polymod(v, poly=0x1864CFB):
+    while v.bit_length() > 24:
+        v ^= poly << (v.bit_length() - 25)
+    return v
+
+
+_TABLE = None
+
+
+def crc24q_table(data):
+    """second formulation: byte-wise table, table entries from pure polynomial mod"""
+    global _TABLE
+    if _TABLE is None:
+        _TABLE = [_polymod(i << 24) for i in range(256)]
+    crc = 0
+    for b in data:
+        crc = ((crc << 8) & 0xFFFFFF) ^ _TABLE[((crc >> 16) ^ b) & 0xFF]
+    return crc
+
+
 class Overrun(Exception):
     pass
 
@@ -229,6 +264,27 @@ def replay_construct(case):
         rid = ref_identity(payload)
         if m.identity != rid:
             failed.append(f"identity: {m.identity!r} != {rid!r}")
+    if 'stub' in checks:
+        rid = ref_identity(payload)
+        if rid is not None and rid not in ol.tables()['payloads']:
+            if m is None:
+                failed.append(f"stub: message number {rid} without definition raised {type(exc).__name__}: {exc}")
+            else:
+                pub = public_attrs(m)
+                if list(pub) != ["DF002"] or str(pub["DF002"]) != rid:
+                    failed.append(f"stub: attributes {pub}")
+                if m.payload != payload:
+                    failed.append("stub: payload not preserved")
+                frame = b"\xd3" + len(payload).to_bytes(2, "big") + payload
+                frame += crc24q_ref(frame).to_bytes(3, "big")
+                if len(payload) < 1024 and m.serialize() != frame:
+                    failed.append("stub: serialize() does not reproduce the frame")
+    if 'ismsm' in checks and m is not None and len(payload) >= 2:
+        num = bits_of(payload, 0, 12)
+        if num in msm_spec()['msm_numbers'] and m.ismsm is not True:
+            failed.append(f"ismsm false for MSM number {num}")
+        if not (1070 <= num <= 1229) and m.ismsm is not False:
+            failed.append(f"ismsm true for number {num}")
     if 'immutable_flag' in checks and m is not None:
         if m.__dict__.get('_immutable') is not True:
             failed.append("message not immutable after construction")
@@ -236,7 +292,168 @@ def replay_construct(case):
             f"ok ({'message' if m is not None else type(exc).__name__})"}
 
 
-REPLAYERS = {'construct': replay_construct}
+class FaultStream:
+    """concrete twin of shims.SymStream: faults = {call index: returned length}"""
+
+    def __init__(self, data, faults=None):
+        self.d = bytes(data)
+        self.pos = 0
+        self.ncalls = 0
+        self.faults = {int(k): v for k, v in (faults or {}).items()}
+
+    def read(self, n=-1):
+        self.ncalls += 1
+        rem = len(self.d) - self.pos
+        if n is None or n < 0:
+            n = rem
+        k = min(n, rem)
+        if self.ncalls in self.faults:
+            k = min(k, self.faults[self.ncalls])
+        out = self.d[self.pos:self.pos + k]
+        self.pos += k
+        return out
+
+    def readline(self):
+        self.ncalls += 1
+        i = self.d.find(b"\n", self.pos)
+        end = len(self.d) if i < 0 else i + 1
+        if self.ncalls in self.faults:
+            end = min(end, self.pos + self.faults[self.ncalls])
+        out = self.d[self.pos:end]
+        self.pos = end
+        return out
+
+
+def frame_ok(raw):
+    """well-formed RTCM3 frame with correct CRC-24Q (independent reference)"""
+    return (len(raw) >= 6 and raw[0] == 0xD3 and raw[1] & 0xFC == 0 and ((raw[1] & 3) << 8 | raw[2]) == len(raw) - 6
+            and crc24q_ref(raw) == 0 and crc24q_table(raw) == 0)
+
+
+def drive_reader(stream, mode, validate=1, parsed=True, labelmsm=1, handler=True, max_calls=None, **kw):
+    """iterate the real reader; returns (events, end, handler_calls)"""
+    from pyrtcm.rtcmreader import RTCMReader
+    import logging
+    logging.disable(logging.CRITICAL)
+    hc = []
+    rdr = RTCMReader(stream, validate=validate, quitonerror=mode, labelmsm=labelmsm, parsed=parsed,
+                     errorhandler=(hc.append if handler else None), **kw)
+    events, end, calls = [], None, 0
+    while True:
+        calls += 1
+        if max_calls is not None and calls > max_calls:
+            end = 'budget'
+            break
+        try:
+            raw, msg = next(rdr)
+            events.append(('pair', raw, msg, getattr(stream, 'pos', None)))
+        except StopIteration:
+            end = 'stop'
+            break
+        except Exception as e:  # noqa
+            events.append(('exc', e))
+            if mode == 2 and is_lib_error(e):
+                continue
+            end = ('foreign' if not is_lib_error(e) else 'escaped', e)
+            break
+    return events, end, hc
+
+
+def replay_stream(case):
+    data = bytes.fromhex(case['data'])
+    mode = case.get('mode', 1)
+    checks = set(case.get('checks', ['c01', 'c04']))
+    st = FaultStream(data, case.get('faults'))
+    budget = 3 * len(data) + 8
+    events, end, hc = drive_reader(st, mode, validate=case.get('validate', 1), parsed=case.get('parsed', True),
+                                   labelmsm=case.get('labelmsm', 1), handler=case.get('handler', True), max_calls=budget)
+    failed = []
+    pairs = [e for e in events if e[0] == 'pair']
+    if 'c04' in checks:
+        if end == 'budget':
+            failed.append(f"c04: iteration did not finish within {budget} calls")
+        elif isinstance(end, tuple) and end[0] == 'foreign':
+            failed.append(f"c04: foreign exception {type(end[1]).__name__}: {end[1]}")
+        elif isinstance(end, tuple) and end[0] == 'escaped' and mode != 2:
+            failed.append(f"c04: library exception {type(end[1]).__name__} escaped the iterator in mode {mode}")
+    if 'c01' in checks and case.get('validate', 1) & 1:
+        prev = 0
+        for _, raw, msg, pos in pairs:
+            p = pos - len(raw)
+            if p < prev or data[p:p + len(raw)] != bytes(raw):
+                failed.append(f"c01: returned bytes are not the stream slice ending at offset {pos}")
+                break
+            prev = pos
+            if not frame_ok(bytes(raw)):
+                failed.append(f"c01: returned frame at offset {p} is not a valid RTCM3 frame ({bytes(raw).hex()})")
+            if msg is not None:
+                if msg.payload != bytes(raw)[3:-3]:
+                    failed.append("c01: parsed payload differs from the frame payload")
+                elif msg.identity != ref_identity(msg.payload):
+                    failed.append(f"c01: parsed identity {msg.identity}")
+            elif case.get('parsed', True):
+                failed.append("c01: no parsed object")
+    if 'frames' in checks:
+        exp = [bytes.fromhex(x) for x in case['expect_frames']]
+        got = [bytes(e[1]) for e in pairs]
+        min_pl = case.get('min_payload', 2)
+        got_f = [g for g in got if len(g) - 6 >= min_pl]
+        if got_f != exp:
+            failed.append(f"frames: returned {[g.hex() for g in got_f]} expected {[e.hex() for e in exp]}")
+        if end != 'stop' and not (mode == 2 and end == 'stop'):
+            failed.append(f"frames: iteration ended with {end!r}")
+    if 'handler' in checks:
+        if len(hc) != case['expect_handler']:
+            failed.append(f"handler: called {len(hc)} times, expected {case['expect_handler']}")
+    if 'errors' in checks:
+        nerr = len([e for e in events if e[0] == 'exc'])
+        if nerr != case['expect_errors']:
+            failed.append(f"errors: {nerr} exceptions raised, expected {case['expect_errors']}")
+        for e in events:
+            if e[0] == 'exc' and type(e[1]).__name__ != case.get('error_type', 'RTCMParseError'):
+                failed.append(f"errors: raised {type(e[1]).__name__}")
+    if 'unparsed' in checks:
+        if any(e[2] is not None for e in pairs):
+            failed.append("unparsed: a parsed object was returned with parsed=False")
+    return {"reproduced": bool(failed), "failed": failed, "detail": "; ".join(failed)[:600] or f"ok ({len(pairs)} frames, end {end})"}
+
+
+def replay_parse(case):
+    from pyrtcm.rtcmreader import RTCMReader
+    buf = bytes.fromhex(case['buffer'])
+    v = case.get('validate', 1)
+    checks = set(case.get('checks', ['total']))
+    failed = []
+    try:
+        m = RTCMReader.parse(buf, validate=v, labelmsm=case.get('labelmsm', 1))
+        exc = None
+    except Exception as e:  # noqa
+        m, exc = None, e
+    if 'total' in checks and exc is not None and not is_lib_error(exc):
+        failed.append(f"total: foreign exception {type(exc).__name__}: {exc}")
+    if 'crcgate' in checks:
+        bad = crc24q_ref(buf) != 0
+        if v & 1 and bad and (exc is None or type(exc).__name__ != "RTCMParseError"):
+            failed.append(f"crcgate: frame with non-zero CRC-24Q remainder not rejected with a parse error ({'accepted' if exc is None else type(exc).__name__})")
+        if v & 1 and not bad and exc is not None and type(exc).__name__ == "RTCMParseError" and "CRC" in str(exc):
+            failed.append("crcgate: frame with correct CRC rejected")
+    if 'payload' in checks and m is not None and m.payload != buf[3:-3]:
+        failed.append("payload: parsed payload is not the frame minus header and trailer")
+    if 'same_as' in checks:
+        other = bytes.fromhex(case['other'])
+        try:
+            m2 = RTCMReader.parse(other, validate=case.get('other_validate', 1), labelmsm=case.get('labelmsm', 1))
+            e2 = None
+        except Exception as e:  # noqa
+            m2, e2 = None, e
+        if (m is None) != (m2 is None):
+            failed.append(f"same_as: outcomes differ ({type(exc).__name__ if exc else 'message'} vs {type(e2).__name__ if e2 else 'message'})")
+        elif m is not None and (public_attrs(m) != public_attrs(m2) or m.identity != m2.identity):
+            failed.append("same_as: attribute values differ")
+    return {"reproduced": bool(failed), "failed": failed, "detail": "; ".join(failed)[:600] or "ok"}
+
+
+REPLAYERS = {'construct': replay_construct, 'stream': replay_stream, 'parse': replay_parse}
 
 
 def replay(case):
